@@ -1199,7 +1199,10 @@ def _read_bipartite_kthlist(inputfile):
     """
     # vertex number
     parser = _kthlist_parse(inputfile)
-    size, name = next(parser)
+    try:
+        size, name = next(parser)
+    except StopIteration:
+        raise ValueError("No graph size specified in the file.")
     bipartition_ambiguous = [1, size]
     edges = {}
 
@@ -1270,7 +1273,10 @@ def _read_nonbipartite_kthlist(inputfile, graph_class):
 
     # vertex number
     parser = _kthlist_parse(inputfile)
-    size, name = next(parser)
+    try:
+        size, name = next(parser)
+    except StopIteration:
+        raise ValueError("No graph size specified in the file.")
     G = graph_class(size, name)
 
     previous = 0
